@@ -2,7 +2,7 @@
 and removes them again. One function per domain; install(domains) returns a restore() callable."""
 import sys, types
 from . import core, loader, models, regex
-from .seq import SBytes, SByteArray, SStr, sym_int, sym_float, sym_round, sym_len
+from .seq import SBytes, SByteArray, SStr, sym_int, sym_float, sym_round, sym_len, sym_str
 from .ints import SymTable
 
 ASSUMPTIONS = {
@@ -73,8 +73,8 @@ def _p1(p):
     p.setg(D, "_LOGGER", NullLog()); p.setg(D, "bytes", SBytes); p.setg(D, "bytearray", SByteArray)
     p.setg(D, "int", sym_int); p.setg(D, "float", sym_float)
     p.setg(D, "datetime", models.SDateTime)
-    if not isinstance(D._ident_pattern, regex.SymPattern):
-        p.setg(D, "_ident_pattern", regex.SymPattern(D._ident_pattern))
+    INFO["dlde_patterns_wrapped"] = regex.wrap_module_patterns(p, D)
+    p.setg(D, "str", sym_str); p.setg(D, "isinstance", models.sym_isinstance); p.setg(D, "round", sym_round)
     try:
         restore, counts = loader.rewrite(D.DataReadout, "_calculate_crc16", if_conversion=True)
         p.undo.append(restore)
@@ -85,9 +85,8 @@ def _p1(p):
 
 def _obis(p):
     import han.obis as O
-    if not isinstance(O._obis_pattern, regex.SymPattern):
-        p.setg(O, "_obis_pattern", regex.SymPattern(O._obis_pattern))
-    p.setg(O, "int", sym_int)
+    INFO["obis_patterns_wrapped"] = regex.wrap_module_patterns(p, O)
+    p.setg(O, "int", sym_int); p.setg(O, "str", sym_str); p.setg(O, "isinstance", models.sym_isinstance)
     p.setg(O, "hash", models.sym_hash)
     n = 0
     for name in ("to_reduced_str", "__str__", "to_group_cdr_str"):
@@ -134,9 +133,10 @@ def _decoders(p):
                 stack.extend(x for x in v.values() if isinstance(x, CC.Construct))
     INFO["bitwise_instances_patched"] = n
     p.setg(cosem, "datetime", models.fake_datetime_module)
-    for mod in (aidon, kaifa, kamstrup):
-        p.setg(mod, "float", sym_float); p.setg(mod, "round", sym_round); p.setg(mod, "int", sym_int)
+    for mod in (aidon, kaifa, kamstrup, cosem):
+        p.setg(mod, "float", sym_float); p.setg(mod, "round", sym_round); p.setg(mod, "int", sym_int); p.setg(mod, "str", sym_str)
         p.setg(mod, "isinstance", models.sym_isinstance); p.setg(mod, "hasattr", models.sym_hasattr)
+        regex.wrap_module_patterns(p, mod)
     try:
         restore, counts = loader.rewrite_adapter_lambda(cosem, "ObisCode", "decoder")
         p.undo.append(restore)
